@@ -7,6 +7,14 @@ CHECKS = {
    text="Every element of the finite domains the property names is executed on the real code and compared with an independently written reference (crypt-table recurrence, MPQ name hash, block cipher, lookup3); inversion is checked on every key. Exhaustive within the stated alphabets; nothing is claimed for longer strings beyond the enumerated families.",
    note="Trusted: refimpl (independent re-implementation from the published algorithms), rustc. &str API restricts reachable bytes (stated in evidence)."),
 }
+CHECKS["C01"]=dict(cat="exploration", engine="xplore", design="DESIGN.md §3 C01",
+   technique="bounded-exhaustive enumeration of the full builder-configuration product x content classes, each built with the real ArchiveBuilder and read back through the real Archive under every name spelling, judged against the added (name, bytes) list",
+   text="Every tuple of the configuration product (version x sector shift x compression x crypto x sector CRC x attributes x listfile x table compression) x content texture is built and read back on the real code; file lengths sit on every sector boundary and names are forced to collide in the hash table. Exhaustive over the stated axes; nothing is claimed outside them.",
+   note="Trusted: the generator's ground truth (names, bytes). Lossy ADPCM selectors judged on length only. build() returning Err is an accepted refusal.")
+CHECKS["C03"]=dict(cat="exploration", engine="xplore", design="DESIGN.md §3 C03",
+   technique="bounded-exhaustive enumeration of selector x input families (all short strings over boundary alphabets, run-length families around 0x80/0x81/0xFF, size ladder x textures) through the real compress/decompress/decompress_secure",
+   text="Each (selector, input) of the enumerated families is compressed and decompressed by the real code under default SecurityLimits; oracle = identity, never-expands, raw-or-prefixed form. Exhaustive within the families; inputs up to 2^17 (quick) / 2^21 (thorough).",
+   note="Compressor refusals (Err) are accepted and counted. ADPCM judged on length and channel sides only.")
 NOT_APPLICABLE = {}
 def main():
     checks=[]
